@@ -7,7 +7,7 @@ statement computed independently here and vs the model's prediction."""
 import calendar
 import datetime as dt
 
-from lib import common, calcorr
+from lib import common, calcorr, dateparsercorr
 from lib.calcorr import fmt_dt, ref_fields, guarded, at
 
 PROP = 'C09'
@@ -370,4 +370,5 @@ def correspond(ctx):
     unit_generate_dates(ctx, DateUtils, gen_days)
     unit_bare_weekday(ctx, calcorr.all_days())
     unit_number_with_month(ctx, bdays + calcorr.all_days(2019, 2021))
+    dateparsercorr.run(ctx)
     pipeline(ctx)
